@@ -5,7 +5,12 @@ package tools
 
 import "os"
 
+import "github.com/git-lfs/git-lfs/v3/verifhook"
+
 func RobustRename(oldpath, newpath string) error {
+	verifhook.RenameCheck(oldpath, newpath)
+	verifhook.Crash("tools.rename.before")
+	defer verifhook.Crash("tools.rename.after")
 	return os.Rename(oldpath, newpath)
 }
 
